@@ -271,7 +271,12 @@ func (s *muxerStream) hasContent() bool {
 }
 
 func (s *muxerStream) hasPart(segmentID uint64, partID uint64) bool {
-	for _, sop := range s.segments {
+	for i, sop := range s.segments {
+		// a listed gap entry is part of the playlist: its media sequence number is its position
+		if _, ok := sop.(*muxerGap); ok && segmentID == uint64(s.segmentDeleteCount+i) {
+			return true
+		}
+
 		if seg, ok := sop.(*muxerSegmentFMP4); ok && segmentID == seg.id {
 			// If the Client requests a Part Index greater than that of the final
 			// Partial Segment of the Parent Segment, the Server MUST treat the
